@@ -207,6 +207,8 @@ def op_strategy(draw, v, led, weights, backend="file", history=()):
             return ("rmprefix", T(p), other)
         if r == 2:
             return ("rmprefix", T(draw(lru_from(v, known))), w)
+        if r == 3:
+            return ("rmprefix", T(draw(relative_of(v, p))), w)
         return ("rmprefix", T(p), w)
     if kind == "move":
         w = draw(st.sampled_from(sorted(wes)))
@@ -218,6 +220,9 @@ def op_strategy(draw, v, led, weights, backend="file", history=()):
         if r in (2, 3):
             # the API also accepts a prefix that is attached to nothing when no source is named
             return ("move", T(draw(lru_from(v, known))), to, False)
+        if r == 4:
+            # ... and must refuse it when a source IS named (most interesting: the source owns an ancestor of the prefix)
+            return ("move", T(draw(relative_of(v, p))), to, w)
         if r == 1:
             return ("move", T(p), to, draw(st.sampled_from(sorted(set(led.issued)))))
         return ("move", T(p), to, w)
